@@ -66,6 +66,8 @@ def _apply(a, o, byname, kmap, codec, form):
         vals = codec.enc_seq(o["vals"], kmap["n"]) if o["vals"] else None
         if vals is not None and form == 1:
             vals = list(vals)
+        if o["j"]:
+            vals = int(o["j"])            # a count
         return a.newaxis(o["name"], values=vals, pos=pos)
     if op == "squeeze":
         if o["i"] == 0:
@@ -131,6 +133,8 @@ def replay(scn):
                             act = A.project(res, codec)
                             if o["op"] == "repeat" and o["j"] == 1:
                                 kmap[cur.dims[o["i"] - 1]] = "i"      # repeat(int) labels are 0..n-1
+                            if o["op"] == "newaxis" and o["j"]:
+                                kmap["n"] = "i"                        # newaxis(values=<count>) labels are 0..n-1
                             exp = _expected(scn["out"][step], kmap)
                             # labels of integer repeats are plain ints: compare through an int codec for that axis
                             what = A.compare(exp, act, check_aattrs=(o["op"] not in ("repeat", "broadcast", "newaxis")))
